@@ -132,3 +132,8 @@ def run(ctx, rep):
     rep.rule('R14.h', 'the message expiry handed down a call chain (handler, System, Stream, Topic, Partition, Segment, loaders) is at every hop the caller\'s own expiry: the parameter or the field of that name of the entity at hand, or that value resolved by Topic::get_message_expiry; the server-wide default enters only inside the resolver', floor=13, analysis='A9')
     sf_.settings_passthrough(ctx, rep, 'R14.h', ('message_expiry',))
 
+    # ------------------------------------------------------------ R14.i a deleted segment leaves no file behind
+    rep.rule('R14.i', 'Segment::delete removes the log file and the index file of the segment, each exactly once: purge re-creates segment 0 at the same paths and the index writer appends, so a surviving index file puts stale entries in front of the new ones (wrong or empty poll slices, also after a restart)', floor=2, analysis='A9 call-argument forms')
+    from props import storage_forms as sfd_
+    sfd_.segment_delete_files(ctx, rep, 'R14.i')
+
